@@ -94,15 +94,23 @@ def same_meta(m1, m2):
         for a, b in zip(m1, m2))
 
 
-def build_pair(fparams, decorate_src, ref_params, method=False, extra_globals=None, reuse=False):
+def build_pair(fparams, decorate_src, ref_params, method=False, extra_globals=None, reuse=False, forwarding=False):
     """exec the decorated function and the native reference; returns (g, ref, namespace).
     reuse: every decorator object is created once, applied to another function first, and
     then to the function under observation (a decorator object may be used any number of times)."""
     fn = 'mf%d' % next(_n)
     body = 'return dict(locals())'
+    head = ''
+    va, vk = sigs.star_name(fparams, VA), sigs.star_name(fparams, VK)
+    if forwarding and (va or vk):
+        # the decorated function forwards its star parameters to a callable with regular parameters of its own
+        # (what the modifiers select from is the function's OWN parameter list, whatever discovery would add)
+        head = 'def inner_(x_=0, y_=2, *a_, **k_): return None\n'
+        call = 'inner_(%s)' % ', '.join((['*' + va] if va else []) + (['**' + vk] if vk else []))
+        body = 'snapshot_ = dict(locals()); %s; return snapshot_' % call
     if reuse and not method:
         names = ['_deco%d' % i for i in range(len(decorate_src))]
-        src = 'from sigtools import modifiers\n'
+        src = 'from sigtools import modifiers\n' + head
         src += ''.join('%s = %s\n' % (nm, l.lstrip('@')) for nm, l in zip(names, decorate_src))
         src += ''.join('@%s\n' % nm for nm in names) + 'def warmup_%s(%s): %s\n' % (fn, sigs.render(fparams), body)
         src += ''.join('@%s\n' % nm for nm in names) + 'def %s(%s): %s\n' % (fn, sigs.render(fparams), body)
@@ -112,7 +120,7 @@ def build_pair(fparams, decorate_src, ref_params, method=False, extra_globals=No
     if method:
         # every third class makes instances that are falsy (an empty container, __bool__ returning False)
         falsy = ('', '    def __len__(self): return 0\n', '    def __bool__(self): return False\n')[int(fn[2:]) % 3]
-        src = ('from sigtools import modifiers\n'
+        src = ('from sigtools import modifiers\n' + head +
                'class A(object):\n'
                '%s'
                '%s'
@@ -123,7 +131,7 @@ def build_pair(fparams, decorate_src, ref_params, method=False, extra_globals=No
                    falsy, ''.join('    %s\n' % l for l in decorate_src), fn, sigs.render(fparams), body,
                    falsy, fn, sigs.render(ref_params), body)
     else:
-        src = ('from sigtools import modifiers\n'
+        src = ('from sigtools import modifiers\n' + head +
                '%s'
                'def %s(%s): %s\n'
                'def ref_%s(%s): %s\n') % (
@@ -155,7 +163,12 @@ def check_case(ctx, prop, fparams, decorate_src, make_kwo, make_po, admissible, 
         ctx.count('%s.skipped_expected_not_expressible' % prop)
         return None
     try:
-        g, ref, ns = build_pair(fparams, decorate_src, ref_params, method=method, reuse=reuse)
+        forwarding = (len(fparams) * 5 + len(decorate_src) * 3 + len(make_kwo) + len(make_po)) % 4 == 0 and \
+            (sigs.has_kind(fparams, VA) or sigs.has_kind(fparams, VK))
+        if forwarding:
+            ctx.count('%s.decorated_function_forwards' % prop)
+            w['body'] = 'forwards its star parameters to inner_(x_=0, y_=2, *a_, **k_)'
+        g, ref, ns = build_pair(fparams, decorate_src, ref_params, method=method, reuse=reuse, forwarding=forwarding)
     except ValueError as e:
         if admissible:
             V('admissible-selection-raises', 'an admissible selection raised ValueError at decoration time: %s' % e, w)
@@ -193,6 +206,8 @@ def check_case(ctx, prop, fparams, decorate_src, make_kwo, make_po, admissible, 
         w = dict(w, annotate_applied_afterwards=late)
         want = [(n_, k_, d_, ('late' if n_ == late else a_)) for n_, k_, d_, a_ in want]
     for lab, retr in (('sigtools.signature', sigtools.signature), ('inspect.signature', inspect.signature)):
+        if forwarding and retr is sigtools.signature:
+            continue        # (discovery legitimately adds the callee's parameters: C05/C06 judge that)
         try:
             got = sig_meta(retr(g))
         except Exception as e:
